@@ -218,7 +218,7 @@ func (e *Engine) callStatic(st *State, fn *ssa.Function, args []Val, bindings []
 	}
 	forceInline := len(st.Frames) > 0 && st.Frames[0].Contract != nil && st.Frames[0].Contract.Inlines[FuncKey(fn)] && !isTop
 	if ct != nil && !forceInline && (!ct.Inline || isTop) && !(e.cur != nil && e.cur.Fn == fn && len(st.Frames) == 0) {
-		e.modularCall(st, fn, ct, args, pos, k)
+		e.modularCall(st, fn, ct, args, bindings, pos, k)
 		return
 	}
 	if len(fn.Blocks) == 0 {
@@ -596,13 +596,36 @@ func (e *Engine) viewWriteBack(st *State, d Val) {
 
 // ---- modular calls ----
 
-func (e *Engine) modularCall(st *State, fn *ssa.Function, ct *Contract, args []Val, pos token.Pos, k Kont) {
+func (e *Engine) modularCall(st *State, fn *ssa.Function, ct *Contract, args []Val, bindings []Val, pos token.Pos, k Kont) {
 	ct.Used = true
 	if ct.Trusted {
 		e.Assumed["trusted contract: "+FullKey(fn)] = true
 	}
+	e.pendingFreeVars = nil
+	if len(fn.FreeVars) > 0 && len(bindings) == len(fn.FreeVars) {
+		// a closure called through its contract: its captured variables (references to them) are in scope of the contract
+		e.pendingFreeVars = map[string]specBind{}
+		for i, fv := range fn.FreeVars {
+			e.pendingFreeVars[fv.Name()] = specBind{bindings[i], fv.Type()}
+		}
+	}
 	e.modularCallSig(st, fn.Signature, FuncKey(fn), ct, args, nil, pos, k)
 	_ = fn
+}
+
+// addPositional adds the aliases <prefix>0, <prefix>1, ... for the parameters (receiver excluded) of a signature whose
+// names/values are already bound in env, so that contracts need not depend on parameter names. Existing names win.
+func addPositional(env map[string]specBind, names []string, sig *types.Signature, prefix string) {
+	off := len(names) - sig.Params().Len()
+	for i := 0; i < sig.Params().Len(); i++ {
+		n := fmt.Sprintf("%s%d", prefix, i)
+		if _, have := env[n]; have {
+			continue
+		}
+		if b, ok := env[names[off+i]]; ok {
+			env[n] = b
+		}
+	}
 }
 
 // paramNames returns receiver+parameter names and types of a signature.
@@ -678,6 +701,12 @@ func (e *Engine) modularCallSig(st *State, sig *types.Signature, name string, ct
 		args[i] = a
 		env[names[i]] = specBind{a, typs[i]}
 	}
+	for n, b := range e.pendingFreeVars {
+		if _, shadow := env[n]; !shadow {
+			env[n] = b
+		}
+	}
+	e.pendingFreeVars = nil
 	// positional aliases arg0, arg1, ... (receiver excluded) so that interface contracts do not depend on parameter names
 	{
 		off := len(names) - sig.Params().Len()
@@ -1015,6 +1044,22 @@ func (e *Engine) checkCallSitesFrame(st *State, fr *Frame, calleeKey string, sig
 		for j := range on {
 			if j < len(fr.Params) {
 				env[on[j]] = specBind{fr.Params[j], ot[j]}
+				// outer_<name>: the enclosing function's parameter even where a callee parameter of the same name shadows it
+				env["outer_"+on[j]] = specBind{fr.Params[j], ot[j]}
+			}
+		}
+		{
+			oe := map[string]specBind{}
+			for j := range on {
+				if j < len(fr.Params) {
+					oe[on[j]] = specBind{fr.Params[j], ot[j]}
+				}
+			}
+			addPositional(oe, on, fr.Fn.Signature, "outer_arg")
+			for n, b := range oe {
+				if strings.HasPrefix(n, "outer_arg") {
+					env[n] = b
+				}
 			}
 		}
 		// captured variables of a closure (references to the variables)
